@@ -35,7 +35,8 @@ import (
 //   facts  expressions known to be non-zero (`if 0 < len(n) {`, `if end == 0 { return }`),
 //          which make the loop over them run at least once
 //
-// and requires tail-top == S at every overwrite, in every reachable state.
+// and requires tail-top == S at every overwrite, in every reachable state, and
+// tail-top != comma where a closing bracket or brace is appended.
 
 const tailDepth = 4
 
@@ -145,6 +146,7 @@ type tailCtx struct {
 	brkLabel  map[string]tailSet // labelled break
 	cntLabel  map[string]tailSet
 	undecided []string
+	closers   int
 }
 
 func posLine(fset *token.FileSet, p token.Pos) string {
@@ -161,7 +163,7 @@ func (c *tailCtx) classifyAppend(call *ast.CallExpr) string {
 		if tv, ok := c.info.Types[a]; ok && tv.Value != nil {
 			s := strings.Trim(tv.Value.ExactString(), `"`)
 			if strings.HasSuffix(s, ",") {
-				return "S"
+				return "S,"
 			}
 			return "O"
 		}
@@ -169,8 +171,12 @@ func (c *tailCtx) classifyAppend(call *ast.CallExpr) string {
 	}
 	if tv, ok := c.info.Types[a]; ok && tv.Value != nil {
 		switch tv.Value.ExactString() {
-		case "44", "32": // ',' ' '
+		case "44": // ','
+			return "S,"
+		case "32": // ' '
 			return "S"
+		case "93", "125": // ']' '}'
+			return "CLOSE"
 		}
 	}
 	return "O"
@@ -255,7 +261,7 @@ func (c *tailCtx) assign(s *ast.AssignStmt, in tailSet) tailSet {
 	if len(s.Lhs) == 1 && c.lastIndexOfBuf(s.Lhs[0]) {
 		c.sites++
 		return c.each(in, func(st *tailState) *tailState {
-			if st.top() != "S" {
+			if st.top() != "S" && st.top() != "S," {
 				var fl []string
 				for o, v := range st.flags {
 					fl = append(fl, fmt.Sprintf("%s=%v", o.Name(), v))
@@ -292,6 +298,21 @@ func (c *tailCtx) assign(s *ast.AssignStmt, in tailSet) tailSet {
 		if call, ok := rhs.(*ast.CallExpr); ok {
 			if id, ok := call.Fun.(*ast.Ident); ok && id.Name == "append" && len(call.Args) >= 1 && c.isBuf(call.Args[0]) {
 				seg := c.classifyAppend(call)
+				if seg == "CLOSE" {
+					seg = "O"
+					for _, st := range in {
+						if st.top() == "S," {
+							var fl []string
+							for o, v := range st.flags {
+								fl = append(fl, fmt.Sprintf("%s=%v", o.Name(), v))
+							}
+							sort.Strings(fl)
+							c.findings = append(c.findings, tailFinding{pos: s.Pos(), top: "DANGLING", flags: strings.Join(fl, " "), trace: strings.Join(st.trace, " -> ")})
+							c.badSites[s.Pos()] = true
+						}
+					}
+					c.closers++
+				}
 				return c.each(in, func(st *tailState) *tailState {
 					st.push(seg)
 					st.note("append " + seg + "@" + line)
@@ -1072,7 +1093,11 @@ func ruleTail(prog *Program, rep *Report, floor int, rels ...string) {
 						continue
 					}
 					seen[k] = true
-					what := map[string]string{"O": "other content (the opening byte, a value or a key)", "?": "unknown (nothing this function appended since the buffer may have been emptied)", "E": "nothing: the buffer is empty", "C": "a segment that was to be taken back"}[strings.SplitN(fnd.top, ":", 2)[0]]
+					what := map[string]string{"O": "other content (the opening byte, a value or a key)", "?": "unknown (nothing this function appended since the buffer may have been emptied)", "E": "nothing: the buffer is empty", "C": "a segment that was to be taken back", "DANGLING": "DANGLING"}[strings.SplitN(fnd.top, ":", 2)[0]]
+					if what == "DANGLING" {
+						rep.Violate(Finding{Rule: "W-tail", Key: key + ":comma-before-closer", Pos: prog.Pos(fnd.pos), Msg: fmt.Sprintf("%s appends the closing byte on a path where the last byte of the buffer is a comma it appended itself: the container ends in a trailing comma [state: %s; path: %s]", r.fn, fnd.flags, fnd.trace)})
+						continue
+					}
 					rep.Violate(Finding{Rule: "W-tail", Key: k, Pos: prog.Pos(fnd.pos), Msg: fmt.Sprintf("%s overwrites the last byte of the buffer on a path where that byte is %s, not a separator it appended [state: %s; path: %s]", r.fn, what, fnd.flags, fnd.trace)})
 				}
 				if len(r.findings) == 0 && len(r.undecided) == 0 {
